@@ -493,9 +493,11 @@ def oracle_system(sp, q, p):
         eval_methods(system, q, np.array(p, dtype=float) * 0.5 - 0.25)
         eval_methods(system, q, p)
         new = metric_object(sp["metric"], sp["n"])
-        if isinstance(new, np.ndarray):  # what the constructor does with array arguments
-            from mici import matrices as mm
+        from mici import matrices as mm
 
+        if new is None:  # what the constructor does with None / array arguments
+            new = mm.IdentityMatrix()
+        elif isinstance(new, np.ndarray):
             new = mm.PositiveDiagonalMatrix(new) if new.ndim == 1 else mm.DensePositiveDefiniteMatrix(new)
         system.metric = new
         r = Ref(sp)
